@@ -44,7 +44,7 @@ _PURE_BUILTINS = {
     "len": len, "sorted": sorted, "min": min, "max": max, "sum": sum, "str": str, "int": int, "bool": bool,
     "tuple": tuple, "list": list, "set": set, "frozenset": frozenset, "dict": dict, "zip": lambda *a: list(zip(*a)),
     "range": lambda *a: list(range(*a)), "enumerate": lambda x, start=0: list(enumerate(x, start)),
-    "reversed": lambda x: list(reversed(x)), "any": any, "all": all, "abs": abs,
+    "reversed": lambda x: list(reversed(x)), "any": any, "all": all, "abs": abs, "chr": chr, "ord": ord,
 }
 _METHODS = {
     str: {"count", "replace", "index", "find", "rfind", "join", "split", "startswith", "endswith", "partition", "strip", "lstrip", "rstrip"},
@@ -57,10 +57,12 @@ _METHODS = {
 
 
 class Mini:
-    def __init__(self, funcs=None, budget=20000):
-        """``funcs``: name -> ast.FunctionDef of helper functions that may be called (interpreted recursively)."""
+    def __init__(self, funcs=None, budget=20000, consts=None):
+        """``funcs``: name -> ast.FunctionDef of helper functions that may be called (interpreted recursively);
+        ``consts``: module-level constants (strings, numbers) the functions read."""
         self.funcs = funcs or {}
         self.budget = budget
+        self.consts = consts or {}
 
     # ------------------------------------------------------------ expressions
     def ev(self, e, env):
@@ -74,6 +76,8 @@ class Mini:
                 return env[e.id]
             if e.id in ("True", "False", "None"):
                 return {"True": True, "False": False, "None": None}[e.id]
+            if e.id in self.consts:
+                return self.consts[e.id]
             raise NoEval(f"name {e.id}")
         if isinstance(e, (ast.Tuple, ast.List)):
             out = []
@@ -234,6 +238,18 @@ class Mini:
             env[t.id] = v
         elif isinstance(t, (ast.Tuple, ast.List)):
             v = list(v)
+            stars = [i for i, te in enumerate(t.elts) if isinstance(te, ast.Starred)]
+            if stars:
+                i = stars[0]
+                after = len(t.elts) - i - 1
+                if len(stars) > 1 or len(v) < len(t.elts) - 1:
+                    raise Raised("ValueError: unpack")
+                for te, ve in zip(t.elts[:i], v[:i]):
+                    self._bind(te, ve, env)
+                self._bind(t.elts[i].value, v[i:len(v) - after], env)
+                for te, ve in zip(t.elts[i + 1:], v[len(v) - after:]):
+                    self._bind(te, ve, env)
+                return
             if len(v) != len(t.elts):
                 raise Raised("ValueError: unpack")
             for te, ve in zip(t.elts, v):
